@@ -418,7 +418,11 @@ func (c *Controller) flushEstablishedLink(el *establishedLink, hasNextLink bool)
 		if lk.peerID != peerID {
 			return false
 		}
-		if ld.lnk.GetValue() != el.lnk {
+		// skip dialers that were resolved with another link.
+		// a dialer without a link was resolved with a link that was since
+		// replaced by a newer one (hasNextLink): with the last link gone, it
+		// has to dial again as well.
+		if dlnk := ld.lnk.GetValue(); dlnk != nil && dlnk != el.lnk {
 			return false
 		}
 
